@@ -17,6 +17,7 @@ import (
 	"verif/harness/vc"
 	"verif/harness/vnet"
 	"verif/harness/vos"
+	"verif/harness/vs"
 )
 
 // C15 - attachment upload: files are reassembled byte-exactly.
@@ -418,7 +419,7 @@ var upNames = []string{"a.jpg", "01cd", "x01cdy", "n~\x7e.bin", strings.Repeat("
 func init() {
 	vc.Register(&vc.Check{
 		ID: "C15", Level: "model_checking",
-		Rule: "the real attachment connection loop on scripted connections: file sets of 1..2 files (thorough 3), sizes 1..6 (plus one file of 2.5 x 64 KiB chunks), chunk sizes 1..3, ALL chunk orders (<= 4 chunks: all permutations; more: rotations and reversal), one resent chunk at every position and behind the completion frame, a lost chunk followed by the completion report / resend / second report round, names and alarm IDs from {a.jpg, 01cd, x01cdy, a name with 0x7E, a 50-byte name}, the five dialects; every stream cut into reads: one unit per read, all coalesced, EVERY 1-cut, and every 2-cut among positions within 1 byte of a frame/chunk boundary, marker or length field (thorough: every 2-cut of streams <= 500 bytes). " +
+		Rule: "the real attachment connection loop on scripted connections: file sets of 1..2 files (thorough 3), sizes 1..6 (plus one file of 2.5 x 64 KiB chunks), chunk sizes 1..3, ALL chunk orders (<= 4 chunks: all permutations; more: rotations and reversal), one resent chunk at every position and behind the completion frame, a lost chunk followed by the completion report / resend / second report round, names and alarm IDs from {a.jpg, 01cd, x01cdy, a name with 0x7E, a 50-byte name}, the five dialects, for the length-prefixed HLJ chunk header also names of 51..255 bytes; every stream cut into reads: one unit per read, all coalesced, EVERY 1-cut, and every 2-cut among positions within 1 byte of a frame/chunk boundary, marker or length field (thorough: every 2-cut of streams <= 500 bytes). " +
 			"Oracle on FileEventer snapshots and socket replies: complete only when all bytes arrived, content byte-identical, one prescribed reply per control frame with serials 0,1,2... states = scripted sessions (paths through the progress state machine), transitions = reads. Non-trivial = session with >= 2 chunks",
 		Assumptions: []string{"reference layouts harness/ref/attach.go (Su-biao and the four dialect widths the repository documents)", "connection loop reached through the VerifRunConnection accessor (tag verif)"},
 		Run:         c15Run,
@@ -440,11 +441,21 @@ func init() {
 	})
 	vc.Register(&vc.Check{
 		ID: "C19", Level: "exploration",
-		Rule: "complete upload sessions (0x1210, 0x1211, chunks, 0x1212, EOF) with the DEFAULT file handler on a virtual file system rooted at a sandbox directory, for announced names = ALL strings of length 1..6 over {a . /} (1092) and all strings of length 1..5 over {a . / \\} that contain a backslash, EVERY byte value 0..255 in five separator positions (..Xe, ..X..Xe, X../e, aX../../e, X), each short name also with a leading '/', with an embedded NUL, '../' repeated up to the 255-byte wire limit, 50-byte chunk-header names, names that resolve to existing files outside (../file.log), names that climb out into a sibling whose name begins with the terminal's own directory name (../<phone>1/x, ../<phone>.bak/z, ../<phone>_note), x 5 phones (one all zeros, one with leading zeros only); plus announcements of 2 and 3 files whose names collide once sanitised (every ordered pair and triple of a 10-name menu reaching the same last element through different parents). " +
+		Rule: "complete upload sessions (0x1210, 0x1211, chunks, 0x1212, EOF) with the DEFAULT file handler on a virtual file system rooted at a sandbox directory, for announced names = ALL strings of length 1..6 over {a . /} (1092) and all strings of length 1..5 over {a . / \\} that contain a backslash, EVERY byte value 0..255 in five separator positions (..Xe, ..X..Xe, X../e, aX../../e, X), each short name also with a leading '/', with an embedded NUL, '../' repeated up to the 255-byte wire limit, 50-byte chunk-header names, names that resolve to existing files outside (../file.log), names that climb out into a sibling whose name begins with the terminal's own directory name (../<phone>1/x, ../<phone>.bak/z, ../<phone>_note), x 5 phones (one all zeros, one with leading zeros only); plus announcements of 2 and 3 files whose names collide once sanitised (every ordered pair and triple of a 10-name menu reaching the same last element through different parents); plus two terminals with different phone numbers uploading at the same time (both announced before either finishes, all schedules of the two connection goroutines within 1 deviation, five dialects): each file must land in its own terminal's directory. " +
 			"Every create/write target of the handler is logged by the vos shim (and carried out only inside the sandbox); it must lie under <root>/<phone>/ (the handler's own file.log excepted). Non-trivial = name contains '..' or '/'",
 		Assumptions: []string{"the os calls of attachment/file_event.go are routed to harness/vos by import rewriting (vgen); paths are resolved lexically (no symlinks in the sandbox)"},
 		Run:         c19Run,
-		Drivers: map[string]func(json.RawMessage) string{"name": func(raw json.RawMessage) string {
+		Drivers: map[string]func(json.RawMessage) string{"twoterm": func(raw json.RawMessage) string {
+			var c twoTermCase
+			_ = json.Unmarshal(raw, &c)
+			x := &vs.Explorer{Make: twoTermMake(c), Check: twoTermCheck}
+			res, _, _ := x.RunOnce(c.Choices, nil, false)
+			out := ""
+			for _, v := range twoTermCheck(res, nil) {
+				out += v.Sig + ": " + v.Msg + "\n"
+			}
+			return out
+		}, "name": func(raw json.RawMessage) string {
 			var c nameCase
 			_ = json.Unmarshal(raw, &c)
 			_, d := nameEval(c)
@@ -469,7 +480,9 @@ func c15Run(ctx *vc.Ctx, rep *vc.Report) {
 		if !ctx.Mine(idx) {
 			return
 		}
+		done := vc.SetCurrent("up", c, fmt.Sprintf("upload session dialect %d files %d chunks %v seg %s %v", c.Dialect, len(c.Files), c.Chunks, c.Seg, c.Cuts))
 		sig, diag, reads, nt := upEval(c, "C15")
+		done()
 		rep.Evaluations++
 		rep.States++
 		rep.Transitions += int64(reads)
@@ -597,6 +610,15 @@ func c15Run(ctx *vc.Ctx, rep *vc.Report) {
 				c := upCase{Dialect: di, AlarmID: alarm, Files: []upFile{{Name: name, Data: upData(5, 9)}}, Chunks: splitChunks(0, 5, 2), Finish: true}
 				segs(c, true)
 			}
+		}
+	}
+	// the length-prefixed chunk header of the HLJ dialect carries names of up to 255 bytes: lengths around every point where
+	// a one-byte sum can wrap (header = 13 + name length), one- and three-chunk files, every 1-cut
+	for _, n := range []int{51, 100, 200, 242, 243, 244, 250, 254, 255} {
+		name := strings.Repeat("h", n-4) + ".bin"
+		for _, size := range []int{5, 300} {
+			c := upCase{Dialect: 1, AlarmID: "hlj-long", Files: []upFile{{Name: name, Data: upData(size, byte(n))}}, Chunks: splitChunks(0, size, (size+2)/3), Finish: true}
+			segs(c, size == 5)
 		}
 	}
 	// several files, chunks interleaved in every order of a small chunk set
@@ -985,5 +1007,112 @@ func c19Run(ctx *vc.Ctx, rep *vc.Report) {
 			}
 		}
 	}
+	c19TwoTerminals(ctx, rep, &idx)
 	rep.Count("distinct_names", int64(len(names)))
+}
+
+// ---- C19: two terminals uploading at the same time ----
+
+type twoTermCase struct {
+	Dialect int   `json:"dialect"`
+	Order   int   `json:"order"` // 0: A announces, B announces, A finishes, B finishes; 1: B finishes first
+	Choices []int `json:"choices,omitempty"`
+}
+
+func twoTermMake(c twoTermCase) func() (func(), any) {
+	return func() (func(), any) {
+		vnet.Reset()
+		vos.Reset("/sandbox")
+		vos.Virtual = true
+		body := func() {
+			mk := func(phone, name string, fill byte) [][]byte {
+				uc := upCase{Dialect: c.Dialect, AlarmID: "two", Files: []upFile{{Name: name, Data: upData(4, fill)}}, Chunks: splitChunks(0, 4, 2), Finish: true, Phone: phone}
+				u, _ := upUnits(uc, nil)
+				return u
+			}
+			ua, ub := mk("13800000001", "a.jpg", 1), mk("13900000002", "b.jpg", 2)
+			pa, pb := vnet.NewConn(), vnet.NewConn()
+			vs.GoNamed("att-conn-A", false, func() {
+				attachment.VerifRunConnection(pa.C, c03Dialects[c.Dialect], nil, attachment.VerifNewFileEvent())
+			})
+			vs.GoNamed("att-conn-B", false, func() {
+				attachment.VerifRunConnection(pb.C, c03Dialects[c.Dialect], nil, attachment.VerifNewFileEvent())
+			})
+			pa.Send(ua[0]) // A announces its files
+			pa.Expect(1)
+			pb.Send(ub[0]) // B announces while A is still uploading
+			pb.Expect(1)
+			finish := func(p *vnet.Peer, units [][]byte) {
+				for _, u := range units[1:] {
+					p.Send(u)
+				}
+				p.Close()
+				vs.WaitIdle()
+			}
+			if c.Order == 0 {
+				finish(pa, ua)
+				finish(pb, ub)
+			} else {
+				finish(pb, ub)
+				finish(pa, ua)
+			}
+		}
+		return body, nil
+	}
+}
+
+func twoTermCheck(res *vs.Result, _ any) []vs.Violation {
+	if res.Panic != nil {
+		return []vs.Violation{{Sig: "two-terminals:panic:" + vc.PanicSite(res.Panic.Value), Msg: res.Panic.Value + "\n" + res.Panic.Stack}}
+	}
+	want := map[string]string{"a.jpg": "/sandbox/13800000001/", "b.jpg": "/sandbox/13900000002/"}
+	written := map[string]bool{}
+	for _, a := range vos.Log {
+		if a.Op != "writefile" {
+			continue
+		}
+		base := filepath.Base(a.Clean)
+		dir, ok := want[base]
+		if !ok {
+			continue
+		}
+		written[base] = true
+		if !strings.HasPrefix(a.Clean, dir) {
+			return []vs.Violation{{Sig: "two-terminals:file-in-another-terminals-directory", Msg: fmt.Sprintf("two terminals upload at the same time: file %s of the terminal whose directory is %s was written to %s", base, dir, a.Clean)}}
+		}
+	}
+	if !written["a.jpg"] || !written["b.jpg"] {
+		return []vs.Violation{{Sig: "two-terminals:file-not-stored", Msg: fmt.Sprintf("two complete uploads, files written: %v", written)}}
+	}
+	return nil
+}
+
+// c19TwoTerminals: two sessions with different phone numbers overlap (both announced before either finishes), default file
+// handler on each connection, all schedules of the two connection goroutines within 1 deviation.
+func c19TwoTerminals(ctx *vc.Ctx, rep *vc.Report, idx *int64) {
+	for di := range c03Dialects {
+		for order := 0; order < 2; order++ {
+			*idx++
+			if !ctx.Mine(*idx) {
+				continue
+			}
+			c := twoTermCase{Dialect: di, Order: order}
+			x := &vs.Explorer{Name: fmt.Sprintf("c19:two-terminals:%d:%d", di, order), Bound: 1, Make: twoTermMake(c), Check: twoTermCheck, Deadline: ctx.Deadline}
+			x.Explore()
+			rep.Evaluations += x.Stats.Executions
+			rep.Nontrivial += x.Stats.Executions
+			if x.Stats.Nondet != "" {
+				rep.Nondet = x.Stats.Nondet
+			}
+			for _, f := range x.Found {
+				cc := c
+				cc.Choices = f.Choices
+				rep.Outcome("fail:" + f.Sig)
+				rep.Add(f.Sig, f.Msg, "twoterm", cc)
+			}
+			if len(x.Found) == 0 {
+				rep.Outcome("ok-two-terminals")
+			}
+		}
+	}
 }
